@@ -4,7 +4,7 @@ set -u
 PROP=$1; PATCH=$2; shift 2
 cd /repo && git status --short | grep -v '^??' && { echo "repo dirty"; exit 3; }
 git -C /repo apply "$PATCH" || { echo "patch does not apply"; exit 3; }
-cd /verif && ./check $PROP "$@"; RC=$?
+cd /verif && VERIF_EVIDENCE_DIR=/verif/target/seedtest-evidence ./check $PROP "$@"; RC=$?
 git -C /repo checkout -- .
 echo "seedtest: check exit code $RC"
 exit $RC
